@@ -12,6 +12,7 @@ class Func:
     name: str
     node: ast.AST
     kind: str = "function"  # function|method|property|static|classmethod
+    memo: bool = False  # functools.cached_property: the first value read is kept in the instance
 
     @property
     def qual(self):
@@ -60,6 +61,20 @@ class Model:
             self._resolve_bases(c)
         for c in self.classes.values():
             self._scan_fields(c)
+        self.has_memo = any(f.memo for f in self.funcs.values())
+        # properties / methods that (transitively, through self.<name> of their own class) read a cached_property
+        self.memo_reach = {f.qual for f in self.funcs.values() if f.memo}
+        grow = bool(self.memo_reach)
+        while grow:
+            grow = False
+            for f in self.funcs.values():
+                if f.qual in self.memo_reach or not f.cls:
+                    continue
+                for n in ast.walk(f.node):
+                    if isinstance(n, ast.Attribute) and isinstance(n.value, ast.Name) and n.value.id == "self" and f"{f.mod}.{f.cls}.{n.attr}" in self.memo_reach:
+                        self.memo_reach.add(f.qual)
+                        grow = True
+                        break
 
     # ---------- scanning
     def _scan_module(self, m, t):
@@ -92,7 +107,10 @@ class Model:
                                 kind = "static"
                             elif dn == "classmethod":
                                 kind = "classmethod"
-                        fo = Func(m, s.name, f.name, f, kind)
+                        memo = any((d.id if isinstance(d, ast.Name) else getattr(d, "attr", None)) == "cached_property" for d in f.decorator_list)
+                        if memo:
+                            kind = "property"
+                        fo = Func(m, s.name, f.name, f, kind, memo)
                         c.methods[f.name] = fo
                         self.funcs[fo.qual] = fo
                     elif isinstance(f, ast.Assign) and len(f.targets) == 1 and isinstance(f.targets[0], ast.Name):
@@ -106,6 +124,75 @@ class Model:
                 consts[s.targets[0].id] = s.value
             elif isinstance(s, ast.AnnAssign) and isinstance(s.target, ast.Name) and s.value is not None:
                 consts[s.target.id] = s.value
+
+    def shared_mutable_state(self, ck):
+        """class attributes of ck holding a mutable container (`x = bytearray()` / [] / {} in the class body) that methods modify in place through `self.x` while
+        no method ever binds `self.x`: one object shared by all instances.  -> [(name, line of the class attribute, line of a mutation)]"""
+        c = self.classes.get(ck)
+        if c is None:
+            return []
+        out = []
+        for name, v in c.consts.items():
+            mutable = isinstance(v, (ast.List, ast.Dict, ast.Set)) or (isinstance(v, ast.Call) and isinstance(v.func, ast.Name) and v.func.id in ("bytearray", "list", "dict", "set", "deque", "defaultdict"))
+            if not mutable:
+                continue
+            bound, mutated = False, None
+            for f in c.methods.values():
+                for n in ast.walk(f.node):
+                    is_self_x = lambda a: isinstance(a, ast.Attribute) and a.attr == name and isinstance(a.value, ast.Name) and a.value.id == "self"
+                    if isinstance(n, (ast.Assign, ast.AnnAssign)):
+                        tg = n.targets if isinstance(n, ast.Assign) else [n.target]
+                        if any(is_self_x(t) for t in tg) and (isinstance(n, ast.Assign) or n.value is not None):
+                            bound = True
+                        if any(isinstance(t, ast.Subscript) and is_self_x(t.value) for t in tg):
+                            mutated = mutated or n.lineno
+                    elif isinstance(n, ast.AugAssign) and is_self_x(n.target):
+                        mutated = mutated or n.lineno  # += on a mutable container extends it in place
+                    elif isinstance(n, ast.Call) and isinstance(n.func, ast.Attribute) and is_self_x(n.func.value) and n.func.attr in (
+                            "append", "extend", "clear", "pop", "insert", "remove", "add", "update", "discard", "setdefault", "popitem", "appendleft", "popleft", "sort", "reverse"):
+                        mutated = mutated or n.lineno
+                    elif isinstance(n, ast.Delete) and any(isinstance(t, ast.Subscript) and is_self_x(t.value) for t in n.targets):
+                        mutated = mutated or n.lineno
+            if mutated and not bound:
+                out.append((name, getattr(v, "lineno", c.node.lineno), mutated))
+        return out
+
+    def module_state(self, mod):
+        """what a module keeps between calls: module-level containers that some function modifies, names rebound through `global`, memoising decorators,
+        mutable class attributes modified through instances -> [(kind, name, line)]; empty = nothing carries over from one call to the next"""
+        t = self.mods.get(mod)
+        if t is None:
+            return []
+        top = {}
+        for s_ in t.body:
+            tg = s_.targets[0] if isinstance(s_, ast.Assign) and len(s_.targets) == 1 else s_.target if isinstance(s_, ast.AnnAssign) and s_.value is not None else None
+            if isinstance(tg, ast.Name):
+                top[tg.id] = s_.lineno
+        out = []
+        MUT = ("append", "extend", "clear", "pop", "insert", "remove", "add", "update", "discard", "setdefault", "popitem", "appendleft", "popleft", "sort", "reverse", "__setitem__")
+        for f in [n for n in ast.walk(t) if isinstance(n, (ast.FunctionDef, ast.AsyncFunctionDef))]:
+            local = {a.arg for a in f.args.args + f.args.kwonlyargs + f.args.posonlyargs} | {n.id for n in ast.walk(f) if isinstance(n, ast.Name) and isinstance(n.ctx, ast.Store)}
+            for n in ast.walk(f):
+                if isinstance(n, ast.Global):
+                    out += [("global", g, n.lineno) for g in n.names]
+                name = None
+                if isinstance(n, ast.Call) and isinstance(n.func, ast.Attribute) and n.func.attr in MUT and isinstance(n.func.value, ast.Name):
+                    name = n.func.value.id
+                elif isinstance(n, (ast.Assign, ast.AugAssign, ast.Delete)):
+                    for tg in (n.targets if isinstance(n, (ast.Assign, ast.Delete)) else [n.target]):
+                        if isinstance(tg, ast.Subscript) and isinstance(tg.value, ast.Name):
+                            name = tg.value.id
+                if name and name in top and name not in local:
+                    out.append(("module-container", name, n.lineno))
+            for d in f.decorator_list:
+                e = d.func if isinstance(d, ast.Call) else d
+                dn = e.id if isinstance(e, ast.Name) else getattr(e, "attr", None)
+                if dn in ("lru_cache", "cache", "cached_property"):
+                    out.append(("memoised", f.name, f.lineno))
+        for ck in self.classes:
+            if ck[0] == mod:
+                out += [("class-container", f"{ck[1]}.{n_}", l2) for n_, l1, l2 in self.shared_mutable_state(ck)]
+        return out
 
     def lookup_class_name(self, m, name):
         """resolve a bare class name used in module m -> class key"""
